@@ -635,6 +635,13 @@ func (m *ModRef) transfer(fn *ssa.Function, in ssa.Instruction) {
 	case *ssa.ChangeType:
 		m.addAll(x, m.ptsOf(x.X))
 	case *ssa.Convert:
+		if _, toSlice := x.Type().Underlying().(*types.Slice); toSlice {
+			if b, fromStr := x.X.Type().Underlying().(*types.Basic); fromStr && b.Info()&types.IsString != 0 {
+				// []byte(s) / []rune(s): a fresh backing array
+				m.addPts(x, Loc{m.alloc(x, fn, "convert"), ""})
+				break
+			}
+		}
 		if PointerLike(x.Type()) {
 			m.addAll(x, m.ptsOf(x.X))
 		}
@@ -1315,5 +1322,54 @@ func (m *ModRef) ParamCaptures(entry *ssa.Function) []Capture {
 		}
 		return out[i].Ref.String() < out[j].Ref.String()
 	})
+	return out
+}
+
+// ResultGlobals lists the locations reachable from the results of entry that are package-level memory of the
+// module: the cell of a package variable, or storage allocated by a package initialiser itself, reachable from a
+// package variable that a (non-initialiser) function reachable from entry refers to. The restriction to variables
+// the entry's own call tree mentions removes the one artefact of context-insensitivity that matters here: a
+// package initialiser calling a constructor with its own literal makes that literal flow through the
+// constructor's parameter into its result for every caller, although no other caller can receive it.
+func (m *ModRef) ResultGlobals(entry *ssa.Function) []Loc {
+	seeds := locSet{}
+	for fn := range m.Reach(entry) {
+		if isInitFn(fn) {
+			continue
+		}
+		for _, b := range fn.Blocks {
+			for _, in := range b.Instrs {
+				for _, op := range in.Operands(nil) {
+					if g, ok := (*op).(*ssa.Global); ok && g.Pkg != nil && core.IsLibraryPkg(g.Pkg.Pkg.Path()) {
+						seeds.add(Loc{m.global(g), ""})
+					}
+				}
+			}
+		}
+	}
+	glob := map[*Obj]bool{}
+	for l := range m.reachableLocs(seeds) {
+		// as in GlobalReachWrites: only the variable's own cell and storage allocated by a package initialiser
+		// itself are certainly package-lifetime singletons; an allocation site inside a constructor called from
+		// init stands for every instance the constructor ever creates
+		if l.O.Kind == ObjGlobal || l.O.Kind == ObjAlloc && l.O.Fn != nil && isInitFn(l.O.Fn) {
+			glob[l.O] = true
+		}
+	}
+	from := locSet{}
+	for _, r := range m.rets[entry] {
+		for l := range r {
+			from.add(l)
+		}
+	}
+	var out []Loc
+	seen := map[*Obj]bool{}
+	for l := range m.reachableLocs(from) {
+		if glob[l.O] && !seen[l.O] {
+			seen[l.O] = true
+			out = append(out, l)
+		}
+	}
+	sort.Slice(out, func(i, j int) bool { return out[i].String() < out[j].String() })
 	return out
 }
